@@ -12,7 +12,7 @@ import json
 INT_FIELDS = ("body", "then_body", "else_body", "condition_prebody", "update_body", "init_body", "catch_body",
               "final_body", "parameters", "static_init", "init", "methods", "nested", "fields")
 STR_FIELDS = ("name", "condition", "target", "operand", "operand2", "operator", "receiver", "field", "source", "index",
-              "array", "data_type", "default_value", "receiver_object", "value", "key", "start", "end", "step")
+              "array", "data_type", "default_value", "receiver_object", "value", "key", "start", "end", "step", "alias")
 
 
 def as_int(v):
@@ -158,6 +158,7 @@ def machine_row(r):
     out["is_tuple"] = "tuple" in attrs
     out["attrs"] = attrs
     out["target_temp"] = out["target"].startswith("%")
+    out["supers"] = arg_list(r.get("supers"))
     return out
 
 
